@@ -10,10 +10,11 @@
 #include "../../../src/core/hooks.hpp"
 namespace verif {
 template <typename... ArgTypes> inline std::string fmt_msg(ArgTypes... args) {
-  crab::crab_string_os os;
+  crab::crab_string_os sos;
+  crab::crab_os &os = sos; // same overload set as the original (crab::errs())
   using expand_variadic_pack = int[];
   (void)expand_variadic_pack{0, ((os << args), void(), 0)...};
-  return os.str();
+  return sos.str();
 }
 } // namespace verif
 
